@@ -14,6 +14,7 @@ PLAN = {
   "fault:schema": (12, 160, 8, 12),
   "fault:general": (8, 120, 8, 12),
   "fault:records": (4, 40, 8, 12),
+  "fault:twoway": (6, 60, 8, 12),      # failing bundles that create / rewire two-way references
 }
 
 
